@@ -31,7 +31,8 @@ ARGS = ["0", "1", "2", "-1", "-2", "3", "10", "100", "1/2", "-1/2", "7/2", "-7/2
         "0.5", "-0.5", "2.5", "3.5", "-2.5", "1e-3", "1e-20", "0.1", "1.5", "-1.5", "2.718281828459045", "3.141592653589793",
         "1e300", "-1e300", "1e-300", "1.7976931348623157e308", "10^400", "-(10^400)", "10^400/3", "1/(10^400)", "2^53+1",
         "9007199254740993", "5!", "C(6,3)", "3!/4!", "123456789.123", "-123456789.5", "1e15", "1e16+1", "0.0", "-0.0",
-        "pi", "pi/2", "e", "8", "1000", "1e22", "0.49999999999999994", "4503599627370497.5"]
+        "pi", "pi/2", "e", "8", "1000", "1e22", "0.49999999999999994", "4503599627370497.5",
+        "pi*1e308", "1/1.5e-200/1.5e-200", "2.5*1e308", "1e308/0.1", "(0-2.5)*1e308"]
 QARGS = ["90 deg", "180 deg", "45 deg", "2 rad", "-1 rad", "4 m", "-4 m", "(7/2) m", "-7/2 s", "2.5 kg", "0 m", "9 m^2", "1e3 m", "30 deg", "1 dozen"]
 BASES = ["-2", "0", "1/2", "1", "2", "e", "10", "0.9", "3", "1.0", "1/10"]
 EXPS = ["0", "1", "2", "3", "-1", "-2", "1/2", "-1/2", "1/3", "2.5", "-0.5", "0.5", "10", "100", "1000", "2/3"]
@@ -79,6 +80,10 @@ def check(ctx):
     for t in args + QARGS + BASES + EXPS:
         if t not in opv:
             opv[t] = R.value(t)
+            k0, x0 = opv[t]
+            if k0 == "ok" and (isinstance(x0, complex) or (isinstance(x0, float) and not math.isfinite(x0))):
+                ctx.violation("elem-nonfinite:" + t, t, "a finite real number or an error", repr(x0), "execute(%r)" % t)
+                opv[t] = ("err", "nonfinite")
     cases, refreq, refmeta = [], [], []
 
     def bad_number(v):
